@@ -1,6 +1,8 @@
 """Spec -> code for module NodeOps (M1): replay TLC's big-step transitions against the real mutators."""
 import sys
 
+from . import core
+
 
 def invert(ch):
     """parent function of a well-formed children function (transport of TLC's compact snapshots)."""
@@ -176,7 +178,10 @@ def replay_chunk(args):
                 continue    # non-node arguments are outside the properties for LightNodeMixin classes
             out["n"] += 1
             out["per_family"][fam] = out["per_family"].get(fam, 0) + 1
-            obs = perform(pred, fam, form0)
+            try:
+                obs = core.call_with_deadline(lambda: perform(pred, fam, form0))
+            except core.Hang:
+                obs = dict(pred, exc="Other:Hang", src=0, log=[], build_failed=False)
             observed[fam] = obs
             if obs.get("build_failed"):
                 attention({"family": fam, "pred": pred, "obs": obs, "flags": flags, "why": "build"})
@@ -228,7 +233,10 @@ def replay_chunk_quiet(args):
         form0 = zlib.crc32(line.encode()) % 6
         for fam in families:
             out["n"] += 1
-            obs = perform(pred, fam, form0, quiet=True)
+            try:
+                obs = core.call_with_deadline(lambda: perform(pred, fam, form0, quiet=True))
+            except core.Hang:
+                obs = dict(pred, exc="Other:Hang", src=0, log=[])
             if obs["exc"] == pred["exc"] and obs["postpar"] == pred["postpar"] and obs["postch"] == pred["postch"]:
                 out["same"] += 1
             elif len(out["attention"]) < 6:
